@@ -11,7 +11,7 @@
               a <= b < L, every site k < a is guaranteed left-isometric and
               every site b < k < L right-isometric. *)
 From Coq Require Import List Bool Arith ZArith Ring.
-From QV Require Import Base.Sums C08.Model C08.Proofs C08.Region C08.Historic.
+From QV Require Import Base.Sums C08.Model C08.Proofs C08.Region C08.Historic C08.World.
 Import ListNotations.
 
 (* The record stays sound over ALL histories of the WHOLE operation alphabet -
@@ -94,6 +94,54 @@ Theorem C08_domain_is_whole_alphabet : forall st o,
   end.
 Proof. intros st o. destruct o; simpl; tauto. Qed.
 Print Assumptions C08_domain_is_whole_alphabet.
+
+(* ---- several cooperating holders of an MPS (C08/World.v): circuits of the CircuitMPS
+   family, each with its tensors and the ADDRESS of the record dict (gate_opts["info"]) it
+   threads; new holders are made by Circuit.copy() (tensors copied, a NEW dict with the same
+   entry) and by CircuitMPS(psi0 = another holder's state) (a NEW empty dict).  Over ALL
+   histories of operations of the whole single-MPS alphabet on ANY holder, interleaved with
+   copies, and after every prefix: no two holders thread the same dict, and every holder's
+   own record is true of its own tensors (Inv of its view). *)
+Theorem C08_world_record_sound : forall xs w, WInv w -> wall_good xs w ->
+  forall n w', wrun (firstn n xs) w = Some w' ->
+    (forall i j oi oj, nth_error (objs w') i = Some oi -> nth_error (objs w') j = Some oj ->
+       ocell oi = ocell oj -> i = j)
+    /\ forall k ob, nth_error (objs w') k = Some ob -> Inv (view w' ob).
+Proof. exact world_sound_every_prefix. Qed.
+Print Assumptions C08_world_record_sound.
+
+(* one world operation; the domain is the single-MPS domain for the acting holder's own view *)
+Theorem C08_world_step_sound : forall x w w', WInv w -> wgood w x -> wstep x w = Some w' -> WInv w'.
+Proof. exact wstep_inv. Qed.
+Print Assumptions C08_world_step_sound.
+
+(* the theorem's starting point: one holder with a sound state *)
+Theorem C08_world_single_holder_start : forall st, Inv st -> WInv (mkW [mkO (sites st) 0] [rec st]).
+Proof. exact single_inv. Qed.
+Print Assumptions C08_world_single_holder_start.
+
+Theorem C08_world_checker_decides_domain : forall w x, wgood_b w x = true -> wgood w x.
+Proof. exact wgood_b_sound. Qed.
+Print Assumptions C08_world_checker_decides_domain.
+
+(* COUNTERFACTUAL (not the current code): had copy() kept the address of the nested info
+   dict (`dict(self.gate_opts)`), then from a sound single holder: shallow copy, canonicalize
+   the COPY elsewhere - the original's tensors are untouched but its record is false, while
+   the copy (the only holder that was operated on) is sound *)
+Theorem C08_counterfactual_shallow_copy_breaks_record :
+  exists w', WInv w_single /\ shallow_then_move = Some w'
+    /\ (exists ob, nth_error (objs w') 0 = Some ob /\ osites ob = sites w_state /\ ~ Inv (view w' ob))
+    /\ (exists ob, nth_error (objs w') 1 = Some ob /\ Inv (view w' ob)).
+Proof. exact shallow_copy_breaks. Qed.
+Print Assumptions C08_counterfactual_shallow_copy_breaks_record.
+
+(* non-vacuity: the same two steps with the real copy end sound, two dicts, (3,3) and (0,0) *)
+Example C08_world_demo :
+  match deep_then_move with
+  | Some w' => winv_b w' = true /\ map ocell (objs w') = [0; 1] /\ heap w' = [RSome 3 3; RSome 0 0]
+  | None => False
+  end.
+Proof. exact deep_copy_demo. Qed.
 
 (* ---- HISTORIC (pre-fix variants, C08/Historic.v; none of this models the
    current code).  Before the fix commits 4980426d, f9934bdc, eb8c2f1e,
